@@ -130,8 +130,9 @@ pub fn c11_case(rp: &Position, board: &Board, legal: &[Mv], k: u64, positional: 
                             "search-returns-no-move-although-a-later-pass-had-started",
                             format!("{fen} expiry at poll {k}: the engine logged the start of the pass for depth {:?} (so the first pass was over), {} legal moves, returned None", DEEPEST_PASS_STARTED.with(|c| c.get()), legal.len()),
                         ));
-                    } else if o.polls <= k && !legal.is_empty() {
+                    } else if o.polls <= k && !legal.is_empty() && rp.half < 100 {
                         // the limit never reported expiry, so nothing can have cut the first pass short
+                        // (a root with 100 half-moves on the clock may be adjudicated without a pass)
                         d.push(Divergence::new(
                             "search-gives-up-without-a-move-before-the-limit-expired",
                             format!("{fen} k={k}: the search ended by itself after {} polls (limit not expired), {} legal moves, returned None", o.polls, legal.len()),
@@ -523,6 +524,15 @@ pub fn history_case(start: &str, moves: &[&str], k: u64) -> (Option<Outcome>, Ve
         boards.push(board);
     }
     let legal = rp.legal_moves();
+    let root_is_rule_drawn = rp.half >= 100 || {
+        let mut q = Position::from_fen(start).unwrap();
+        let mut n = (q.identity() == rp.identity()) as u32;
+        for m in moves {
+            q = q.make(Mv::parse(m).unwrap());
+            n += (q.identity() == rp.identity()) as u32;
+        }
+        n >= 3
+    };
     let r = std::panic::catch_unwind(|| {
         let mut tf = ThreeFold::new();
         for b in &boards {
@@ -541,7 +551,9 @@ pub fn history_case(start: &str, moves: &[&str], k: u64) -> (Option<Outcome>, Ve
             let mut d = vec![];
             match o.mv {
                 Some(m) if !legal.contains(&ref_mv(m)) => d.push(Divergence::new("search-returns-illegal-move", format!("{what} expiry at poll {k}: returned {}", ref_mv(m).uci()))),
-                None if !legal.is_empty() && (o.max_depth != SENTINEL || o.polls <= k) => d.push(Divergence::new("search-returns-no-move-although-a-pass-completed", format!("{what} expiry at poll {k}: pass {} completed (or the search ended by itself), {} legal moves, returned None", o.max_depth, legal.len()))),
+                // a root that the rules already call drawn (third occurrence in the supplied history, or 100
+                // half-moves) may be adjudicated without running a pass: 'ended by itself' then proves nothing
+                None if !legal.is_empty() && (o.max_depth != SENTINEL || (o.polls <= k && !root_is_rule_drawn)) => d.push(Divergence::new("search-returns-no-move-although-a-pass-completed", format!("{what} expiry at poll {k}: pass {} completed (or the search ended by itself), {} legal moves, returned None", o.max_depth, legal.len()))),
                 _ => {}
             }
             (Some(o), d)
@@ -617,7 +629,7 @@ pub fn reuse_case(a: &Position, b: &Position, k: u64) -> Vec<Divergence> {
                 if !legal_b.contains(&ref_mv(m)) {
                     return vec![Divergence::new("search-returns-illegal-move:engine-reused", format!("engine searched {} and then {} with expiry at poll {k}: returned {} which is not legal there", a.to_fen(), b.to_fen(), ref_mv(m).uci()))];
                 }
-            } else if !legal_b.is_empty() && (depth != SENTINEL || polls <= k) {
+            } else if !legal_b.is_empty() && (depth != SENTINEL || (polls <= k && b.half < 100)) {
                 return vec![Divergence::new("search-returns-no-move:engine-reused", format!("{} then {} k={k}", a.to_fen(), b.to_fen()))];
             }
             vec![]
@@ -756,7 +768,7 @@ pub fn c12_deeper(rp: &Position, positional: bool, ks: &[u64]) -> (u64, Vec<Dive
         };
         n += 1;
         let got_mv = o.mv.map(ref_mv);
-        let completed = o.max_depth != SENTINEL || o.polls <= k;
+        let completed = o.max_depth != SENTINEL || (o.polls <= k && rp.half < 100);
         if o.score == want && !got_mv.map_or(false, |m| mates.contains(&m)) {
             d.push(Divergence::new(
                 "mate-in-one-reported-but-move-does-not-mate",
